@@ -74,6 +74,7 @@ def sym_execute(prog, ob, slice_dom, checks_on):
     f = prog.fn(ob.fn)
     dom = dict(ob.dom); dom.update(slice_dom)
     args, cons, names = make_args(ex, f, dom, ob.strlen)
+    ex.dom_constraints = list(cons)
     t0 = time.time()
     val, rg = ex.call_body(f, args, T)
     # known-finding classes: assume(!class(args))
@@ -101,7 +102,7 @@ def model_to_args(names, vals, buf_decoders=None):
 def run_slice(prog, ob, slice_dom, checks_on, qdir, tier_timeout, validate_points=None, seed=0, cross_check=False):
     """decide one (obligation, profile, slice). returns a JSON-able record."""
     rec = {'fn': ob.fn, 'kind': ob.kind, 'profile': 'overflow-checks=' + ('on' if checks_on else 'off'), 'slice': {k: (list(v) if isinstance(v, (tuple, list)) else v) for k, v in slice_dom.items()},
-           'abstractions': list(ob.abstractions), 'known_finding_classes_assumed_away': list(ob.kf)}
+           'abstractions': list(ob.abstractions), 'known_finding_classes_assumed_away': list(ob.kf), 'ob_note': ob.note}
     t_start = time.time()
     try:
         se = sym_execute(prog, ob, slice_dom, checks_on)
@@ -120,7 +121,7 @@ def run_slice(prog, ob, slice_dom, checks_on, qdir, tier_timeout, validate_point
                functions_encoded=sorted(ctx.reached), std_models=sorted(ctx.models_used), abstractions_used=sorted(getattr(ctx, 'abstractions_used', set())))
     timeout = ob.timeout or tier_timeout
     argnames = [str(v) for _, _, v in se['names']]
-    tag = '%s_%s_%s' % (ob.fn, 'on' if checks_on else 'off', zlib.crc32(json.dumps(rec["slice"], sort_keys=True).encode()))
+    tag = '%s_%s_%s' % (ob.fn, 'on' if checks_on else 'off', zlib.crc32(json.dumps([rec["slice"], ob.strlen, sorted((str(k), str(v)) for k, v in ob.dom.items()), ob.note], sort_keys=True).encode()))
     queries = []
     def ask(label, extra, want, tmo):
         if z3.is_false(extra):
@@ -141,6 +142,12 @@ def run_slice(prog, ob, slice_dom, checks_on, qdir, tier_timeout, validate_point
         if vr['disagreements']:
             rec.update(verdict='inconclusive', reason='encoding disagrees with the native build on %d concrete points, e.g. %s' % (len(vr['disagreements']), vr['disagreements'][0]), queries=queries)
             return rec
+    if ob.opts.get('validate_only'):
+        # an obligation that exists to compare the encoding with the native build on concrete points (its assertion is not a claim)
+        rec['wall_s'] = round(time.time() - t_start, 2); rec['queries'] = queries
+        if validate_points and rec['validation']['agree'] > 0: rec.update(verdict='holds', reason='encoding validation only: %d/%d concrete points agree with the native build' % (rec['validation']['agree'], rec['validation']['points']))
+        else: rec.update(verdict='inconclusive', reason='encoding validation produced no comparable point')
+        return rec
     # vacuity witness
     rw = ask('witness', wit, 'sat', min(timeout, 300))
     rec['vacuity_witness'] = rw.verdict
@@ -148,7 +155,7 @@ def run_slice(prog, ob, slice_dom, checks_on, qdir, tier_timeout, validate_point
     if ctx.unwound:
         ru = ask('unwinding', unw_or, 'unsat', timeout)
         if ru.verdict != 'unsat':
-            rec.update(verdict='inconclusive', reason='unwinding bound %d not sufficient (%s)' % (ob.unwind, ru.verdict), queries=queries); return rec
+            rec.update(verdict='inconclusive', reason='unwinding bound %d not sufficient (%s) at %s' % (ob.unwind, ru.verdict, sorted({w for _, w in ctx.unwound})[:4]), queries=queries); return rec
     if getattr(ctx, 'contract_panics', None):
         rc = ask('contract_total', cpan_or, 'unsat', timeout)
         if rc.verdict != 'unsat':
@@ -236,13 +243,27 @@ def validate_encoding(prog, ob, se, base, viol, wit, points, checks_on):
 
 def gen_points(prog, ob, n, seed):
     f = prog.fn(ob.fn)
-    rng = random.Random(seed * 7919 + zlib.crc32(ob.fn.encode()) % 1000)
+    rng = random.Random(seed * 7919 + zlib.crc32((ob.fn + (ob.note or '')).encode()) % 100000)
     cols = []
     for p in f.params:
         ty = f.locals[p]; nm = f.debug.get(p, p)
         if ty == 'bool': cols.append([True, False]); continue
         if ty in ('&str', '&[u8]'):
             L = ob.strlen if ob.strlen is not None else 20
+            bd = ob.dom.get(nm + '#bytes')
+            if bd is not None:
+                # per-byte domains: interval ends, characters the readers compare against, random members
+                hot = b'\n,.:/<>+-0159JMAZaz \x00;'
+                col = []
+                for _ in range(max(n, 8)):
+                    bs = bytearray()
+                    for i in range(L):
+                        lo, hi = bd.get(i, (0, 255))
+                        if lo == hi: bs.append(lo); continue
+                        c = [lo, hi, rng.randint(lo, hi), rng.randint(lo, hi)] + [h for h in hot if lo <= h <= hi]
+                        bs.append(rng.choice(c))
+                    col.append(bytes(bs))
+                cols.append(col); continue
             cols.append(string_corpus(L, rng)); continue
         if ty not in INT_TYPES: return []
         lo, hi = ty_range(ty)
